@@ -293,6 +293,75 @@ def rule_kbd(rep: Report, repo: Repo) -> None:
               f'{test} -> {body[:80]}', f'{KBD}:{nd.lineno}')
 
 
+BYTE_CODECS = {'raw_unicode_escape', 'latin-1', 'latin1', 'latin_1', 'iso-8859-1', 'iso8859-1', 'l1'}      # code point n <-> byte n for n < 256
+
+
+def _one_byte_of(e: ast.expr, repo: Repo, rel: str) -> Optional[str]:
+    """the integer expression X when e builds the ONE byte of value X: X.to_bytes(1, ..), bytes([X]) / bytes((X,)),
+    chr(X).encode(<the byte codec constant>); else None."""
+    if isinstance(e, ast.Call) and isinstance(e.func, ast.Attribute) and e.func.attr == 'to_bytes' and e.args \
+            and isinstance(e.args[0], ast.Constant) and e.args[0].value == 1:
+        return norm(e.func.value)
+    if isinstance(e, ast.Call) and dotted(e.func) == 'bytes' and len(e.args) == 1 and isinstance(e.args[0], (ast.List, ast.Tuple)) \
+            and len(e.args[0].elts) == 1:
+        return norm(e.args[0].elts[0])
+    if isinstance(e, ast.Call) and isinstance(e.func, ast.Attribute) and e.func.attr == 'encode' and _codec_ok(e, repo, rel) \
+            and isinstance(e.func.value, ast.Call) and dotted(e.func.value.func) == 'chr' and len(e.func.value.args) == 1:
+        return norm(e.func.value.args[0])
+    return None
+
+
+def _codec_ok(c: ast.Call, repo: Repo, rel: str) -> bool:
+    arg = c.args[0] if c.args else next((k.value for k in c.keywords if k.arg == 'encoding'), None)
+    if arg is None:
+        return False                              # the default codec is utf-8: code points >= 0x80 become two bytes
+    if isinstance(arg, ast.Constant):
+        return str(arg.value).lower() in BYTE_CODECS
+    return isinstance(arg, ast.Name) and arg.id == 'IO_BYTES_ENCODING'
+
+
+def rule_codec(rep: Report, repo: Repo) -> None:
+    rep.rule('C17.CODEC', 'bytes cross the str boundary only through the byte-transparent codec: IO_BYTES_ENCODING maps code point n to '
+             'byte n for every n < 256, every .encode / .decode of the io devices (and of the quickstart comparison of device output) '
+             'names it, and the completed byte of every write_bit joins the retrievable output as exactly one byte of that value', 6)
+    CONSTS = 'flipjump/utils/constants.py'
+    val = repo.const(CONSTS, 'IO_BYTES_ENCODING')
+    rep.check(isinstance(val, str) and val.lower() in BYTE_CODECS, 'C17.CODEC', 'IO_BYTES_ENCODING', f'{val!r}', CONSTS,
+              expected=f'one of {sorted(BYTE_CODECS)}')
+    rels = sorted({r for r, _ in PACKERS} | {D + 'BrokenIO.py', D + 'IODevice.py', 'flipjump/flipjump_quickstart.py', 'flipjump/interpreter/fjm_run.py'})
+    for rel in rels:
+        if not repo.exists(rel):
+            continue
+        for c in ast.walk(repo.mod(rel)):
+            if isinstance(c, ast.Call) and isinstance(c.func, ast.Attribute) and c.func.attr in ('encode', 'decode') \
+                    and not (isinstance(c.func.value, ast.Name) and c.func.value.id in ('base64', 'json', 'zlib')):
+                rep.check(_codec_ok(c, repo, rel), 'C17.CODEC', f'{rel.split("/")[-1]}:{norm(c)[:60]}', f'codec argument of `{norm(c)[:80]}`',
+                          f'{rel}:{c.lineno}', expected='IO_BYTES_ENCODING (a missing argument means utf-8)')
+    for rel, cls in PACKERS:
+        fn = repo.func(rel, f'{cls}.write_bit')
+        outs = method_outcomes(repo, rel, cls, 'write_bit')
+        acc, cnt = _pack_names(outs)
+        if acc is None or cnt is None:
+            continue                                   # C17.PACK reports it
+        full = f'bit << {cnt} | {acc}'
+        bufs = {k for o in outs for k, v in o.state.items() if k not in (acc, cnt) and full in v}
+        for buf in sorted(bufs):
+            bad = []
+            for o in outs:
+                v = o.state.get(buf)
+                if v is None:
+                    continue
+                e = ast.parse(v, mode='eval').body
+                one = _one_byte_of(e.right, repo, rel) if isinstance(e, ast.BinOp) and isinstance(e.op, ast.Add) and norm(e.left) == buf else None
+                if one is None and isinstance(e, ast.BinOp) and isinstance(e.op, ast.Add) and norm(e.left) == buf \
+                        and isinstance(e.right, (ast.List, ast.Tuple)) and len(e.right.elts) == 1:
+                    one = norm(e.right.elts[0])            # a list / bytearray buffer of byte values
+                if one is None or norm(ast.parse(one, mode='eval').body) != norm(ast.parse(full, mode='eval').body):
+                    bad.append(v)
+            rep.check(not bad, 'C17.CODEC', f'{cls}.write_bit:{buf}', f'{buf} grows by {bad[0] if bad else "one byte holding the completed value"}',
+                      f'{rel}:{fn.lineno} {cls}.write_bit', expected=f'{buf} + <one byte of value {full}>')
+
+
 def check(rep: Report, repo: Optional[Repo] = None) -> None:
     repo = repo or Repo()
     rep.units = dict(devices=[c for _, c in PACKERS], files=sorted({r for r, _ in PACKERS}))
@@ -301,6 +370,7 @@ def check(rep: Report, repo: Optional[Repo] = None) -> None:
     rule_eof(rep, repo)
     rule_incomplete(rep, repo)
     rule_kbd(rep, repo)
+    rule_codec(rep, repo)
 
 
 MANIFEST = dict(
